@@ -16,7 +16,8 @@ MODEL_TARGETS = M.MODEL_TARGETS
 SHARD = 40
 RULE = ("DataFrames of 1-12 rows over all nine stypes (+ numerical/categorical target or none), materialized four "
         "times: RangeIndex + original column order, relabelled index (offset / permuted / string / duplicated labels, "
-        "assigned, via set_index, or as left behind by iloc / concat), permuted columns, both; distinct = distinct "
+        "assigned, via set_index, or as left behind by iloc / concat; the index unnamed or NAMED 'data' / 'index' / "
+        "like one of the columns), permuted columns, both; distinct = distinct "
         "(stype multiset, n, label kind, method, target stype, column permutation signature); non-trivial = at least "
         "two feature columns or a non-identity relabelling")
 TRUSTED = [
@@ -30,6 +31,10 @@ TRUSTED = [
 ]
 ASSUMPTIONS = [
     "column names are unique (a pandas frame with duplicated column names is outside the property)",
+    "string-valued columns are held as object or str; pandas `category` dtype columns are outside the quantifier "
+    "(value_counts lists unobserved categories with count 0, which would inflate the class count)",
+    "relabel_invariant equates the columns INCLUDING the statistics the converter was given; that the statistics "
+    "themselves do not depend on labels / column order is observed by the oracle (equal read_stats), not proved",
     "category tie order may depend on row order; all four materializations of a case have the same row order",
     "column_perm_invariant is proved for the case that both conversions succeed; success transfer is observed",
 ]
@@ -67,8 +72,13 @@ def gen_case(rng):
             rng.shuffle(perm)
             if perm != order:
                 break
+    # the index may carry a NAME: none, the merge key the mappers use, pandas' default column name after
+    # reset_index, or the name of one of the frame's own columns (as left behind by set_index)
+    iname = rng.wpick([(4, None), (2, "data"), (1, "index"), (2, "col"), (1, "level_0")])
+    if iname == "col":
+        iname = rng.pick(fr["col_order"])
     return {"frame": fr, "rows": rows, "label_kind": kind, "method": method, "perm": perm,
-            "split": rng.randint(0, len(rows))}
+            "split": rng.randint(0, len(rows)), "index_name": iname}
 
 
 def exhaustive_orders(rng):
@@ -86,12 +96,12 @@ def exhaustive_orders(rng):
             fr = {"n": n, "index": "range", "cols": cols, "target": "k_y", "col_order": names}
             rows = [2, 0, 1, 0] if kind == "positions" else [0, 1, 2]
             out.append({"frame": fr, "rows": rows, "label_kind": kind, "method": "iloc" if kind == "positions" else "assign",
-                        "perm": list(order), "split": 2})
+                        "perm": list(order), "split": 2, "index_name": [None, "data", "k_y", "index"][len(out) % 4]})
     return out
 
 
 def generate(rng, tier):
-    n = 260 if tier == "quick" else 5000
+    n = 160 if tier == "quick" else 5000
     cases = [gen_case(rng) for _ in range(n)]
     if tier == "thorough":
         cases += exhaustive_orders(rng)
@@ -118,8 +128,10 @@ def labels_of(case):
 
 def relabelled_df(case, eff, col_order):
     import pandas as pd
+    name = case.get("index_name")
     if case["method"] in ("iloc", "concat"):
         pre = G.build_df(dict(case["frame"], index="range"), col_order=col_order)
+        pre.index.name = name
         if case["method"] == "iloc":
             return pre.iloc[case["rows"]]
         k = case["split"]
@@ -127,8 +139,8 @@ def relabelled_df(case, eff, col_order):
     df = G.build_df(eff, col_order=col_order)
     labels = labels_of(case)
     if case["method"] == "set_index":
-        return df.set_index(pd.Index(labels))
-    df.index = labels
+        return df.set_index(pd.Index(labels, name=name))
+    df.index = pd.Index(labels, name=name)
     return df
 
 
@@ -136,6 +148,7 @@ def materialize(eff, df):
     ds, stubs = G.build_dataset(eff, df=df)
     ds.materialize()
     out = {"tf": G.read_tf(ds.tensor_frame), "stats": G.read_stats(ds.col_stats), "columns": list(df.columns),
+           "index_name": df.index.name,
            "labels": [x if isinstance(x, str) else int(x) for x in df.index.tolist()]}
     # black boxes, recorded for the correspondence: what the user callables returned, cell by cell
     emb, tok = {}, {}
@@ -234,8 +247,8 @@ def oracle(case, obs):
         return dict(key=f"materialize-raises:{A['exc']}", what=f"materializing the RangeIndex frame raised {A['exc']}: "
                     f"{A['msg']}", stypes=sts, tb=A.get("tb"))
     # (a) relabelling / column order change nothing
-    what = {"B": f"index relabelled ({case['label_kind']} via {case['method']})", "C": "columns permuted",
-            "D": f"index relabelled ({case['label_kind']} via {case['method']}) and columns permuted"}
+    rl = f"index relabelled ({case['label_kind']} via {case['method']}, index name {case.get('index_name')!r})"
+    what = {"B": rl, "C": "columns permuted", "D": rl + " and columns permuted"}
     ca = canon_tf(A["tf"], eff)
     for tag in ("B", "C", "D"):
         o = V[tag]
@@ -333,6 +346,8 @@ def oracle(case, obs):
             et, ec = "REGRESSION", None
         else:
             k = len({(type(v).__name__, v) for v in col["cells"] if v is not None})
+            if k < 2:
+                return None      # a one-class target is outside the property (num_classes asserts >= 2 classes)
             et, ec = ("BINARY_CLASSIFICATION" if k == 2 else "MULTICLASS_CLASSIFICATION"), k
         if A.get("task_type") != et:
             return dict(key="task-type", what=f"task_type is {A.get('task_type')}, the target column says {et}")
@@ -357,9 +372,12 @@ def shrink(case):
             rest = cols[:k] + cols[k + 1:]
             nfr = dict(fr, cols=rest, col_order=[n for n in fr["col_order"] if n != c["name"]])
             yield dict(case, frame=nfr, perm=[n for n in case["perm"] if n != c["name"]])
+    tcol = next((c for c in cols if c["name"] == fr["target"] and c["stype"] == "categorical"), None)
     if len(case["rows"]) > 1:
         for k in range(len(case["rows"])):
             rows = case["rows"][:k] + case["rows"][k + 1:]
+            if tcol is not None and len({str(tcol["cells"][r]) for r in rows}) < 2:
+                continue         # keep >= 2 target classes: stay inside the quantifier
             yield dict(case, rows=rows, split=min(case["split"], len(rows)))
     if fr["target"] is not None:
         nfr = dict(fr, target=None, cols=[c for c in cols if c["name"] != fr["target"]],
@@ -368,6 +386,8 @@ def shrink(case):
             yield dict(case, frame=nfr, perm=[n for n in case["perm"] if n != fr["target"]])
     if case["method"] != "assign" and case["label_kind"] != "positions":
         yield dict(case, method="assign")
+    if case.get("index_name") is not None:
+        yield dict(case, index_name=None)
 
 
 def nontrivial_sig(case, obs):
@@ -378,7 +398,9 @@ def nontrivial_sig(case, obs):
         return None
     tgt = next((c["stype"] for c in fr["cols"] if c["name"] == fr["target"]), None)
     rank = {n: i for i, n in enumerate(sorted(fr["col_order"]))}
+    iname = case.get("index_name")
     sig = [sorted(c["stype"] for c in fr["cols"]), len(case["rows"]), case["label_kind"], case["method"], tgt,
+           iname if iname in (None, "data", "index", "level_0") else "col",
            [rank[n] for n in fr["col_order"]], [rank[n] for n in case["perm"]]]
     return json.dumps(sig)
 
@@ -393,6 +415,13 @@ def stats(cases, obss):
         fr = c["frame"]
         d["label_kind"][c["label_kind"]] = d["label_kind"].get(c["label_kind"], 0) + 1
         d["method"][c["method"]] = d["method"].get(c["method"], 0) + 1
+        iname = c.get("index_name")
+        ik = iname if iname in (None, "data", "index", "level_0") else "like-a-column"
+        d.setdefault("index_name", {})
+        d["index_name"][str(ik)] = d["index_name"].get(str(ik), 0) + 1
+        d.setdefault("label_x_name", {})
+        key = f"{c['label_kind']}/{'named' if iname is not None else 'unnamed'}"
+        d["label_x_name"][key] = d["label_x_name"].get(key, 0) + 1
         d["rows"][len(c["rows"])] = d["rows"].get(len(c["rows"]), 0) + 1
         tgt = next((x["stype"] for x in fr["cols"] if x["name"] == fr["target"]), "none")
         d["target"][tgt] = d["target"].get(tgt, 0) + 1
@@ -462,7 +491,7 @@ def coq_term(case, obs):
     for tag in ("A", "D"):
         v = V[tag]
         fr = coq_frame(eff, v, parsed, v["labels"], v["columns"])
-        parts.append(f"check_tf {tgt} {fr} {coq_obs(eff, v)}")
+        parts.append(f"check_tf pval_eqb {tgt} {fr} {coq_obs(eff, v)}")
     if eff["target"] is not None:
         a = V["A"]
         col = next(c for c in eff["cols"] if c["name"] == eff["target"])
@@ -473,3 +502,34 @@ def coq_term(case, obs):
         ncs = f"(Some {M.nat(nc)})" if isinstance(nc, int) else "None"
         parts.append(f"check_task ({raw}) {tts} {ncs}")
     return "(" + " && ".join(parts) + ")"
+
+
+def sanity(cases, obss):
+    """Fail-closed distribution check: all nine stypes, every labeling x {named, unnamed index}, every relabelling
+    method, every index-name kind, targets of both kinds and none, frames with merged children and duplicated
+    labels must all be drawn, and raising cases stay a minority."""
+    d = stats(cases, obss)
+    probs = []
+    if d["total"] and d["raised"] > 0.6 * d["total"]:
+        probs.append(f"{d['raised']} of {d['total']} cases raise")
+    for st in G_ALL:
+        if d["stypes"].get(st, 0) == 0:
+            probs.append(f"stype {st} never drawn")
+    for k in LABEL_KINDS + ["positions"]:
+        for nm in ("named", "unnamed"):
+            if d.get("label_x_name", {}).get(f"{k}/{nm}", 0) == 0:
+                probs.append(f"labeling {k} with {nm} index never drawn")
+    for m in set(METHODS):
+        if d["method"].get(m, 0) == 0:
+            probs.append(f"relabelling method {m} never drawn")
+    for k in ("None", "data", "index", "like-a-column"):
+        if d.get("index_name", {}).get(k, 0) == 0:
+            probs.append(f"index name kind {k} never drawn")
+    for t in ("numerical", "categorical", "none"):
+        if d["target"].get(t, 0) == 0:
+            probs.append(f"target kind {t} never drawn")
+    if d["dup_labels"] == 0:
+        probs.append("duplicated labels never drawn")
+    if d["with_children"] == 0:
+        probs.append("no frame with text/image-embedded columns")
+    return probs
